@@ -4,12 +4,13 @@ package main
 // pandora binary built from the repo's main.go) and prints canonical observations; lean/Pandora/Drv/C06.lean
 // computes the model's observation and the Spec verdict for the same lines.
 //
-//	kind=line  id=0|1 ns=<unixnano> tag=<hex> sid=<uint64> f=<10 ints, documented column order> via=api|raw
+//	kind=line  id=0|1 ns=<unixnano> tag=<hex> sid=<uint64> f=<10 ints, documented column order> via=api|raw|sparse
 //	kind=str   ns=… tag=… sid=… f=… via=…                (*Sample).String()
 //	kind=seq   id=0|1 q=<Q> via=api|raw s=<ns>:<taghex>:<sid>:<f,…>;…   several samples through ONE phout aggregator
 //	kind=queue agg=phout|jsonlines g=<G> k=<K> q=<Q> flush=<ms> buf=<bytes> wrap=0|1 jit=<seed> [late=1] [sink=file] [fail=<bytes>]
 //	kind=engine agg=… pools=<P> inst=<I> ammo=<N> per=<R> q=<Q> slow=<µs> cancel=<-1|shot> seed=<S>   the real engine.Engine
 //	kind=json  n=<N> q=<Q> seed=<S>
+//	kind=sinkfail agg=phout|jsonlines n=<N> limit=<bytes>   a sink that rejects every write after <limit> bytes, only the final flush writes
 //	kind=proc  sig=INT|TERM at=<ms> rps=<R> procs=<GOMAXPROCS of the subprocess, 0 = default> [res=phout|json]
 
 import (
@@ -105,44 +106,66 @@ func genNs(r *rand.Rand) int64 {
 	}
 }
 
+func genVia(r *rand.Rand) string {
+	switch r.Intn(4) {
+	case 0:
+		return "raw"
+	case 1:
+		return "sparse" // only the non-zero values are set, on a sample that comes from the pool
+	}
+	return "api"
+}
+
 func seqInput(r *rand.Rand, n int) string {
 	var parts []string
+	via := genVia(r)
 	for i := 0; i < n; i++ {
 		var f []string
 		for j := 0; j < 10; j++ {
-			f = append(f, fmt.Sprint(genField(r)))
+			v := genField(r)
+			if via == "sparse" && i > 0 && r.Intn(2) == 0 {
+				v = 0 // a value this sample leaves alone, after earlier samples that had one there
+			}
+			f = append(f, fmt.Sprint(v))
 		}
 		tag := genTag(r)
 		if r.Intn(4) == 0 {
 			tag = "" // the empty tag is a valid, common input (ammo without a tag)
 		}
-		parts = append(parts, seqToken(genNs(r), tag, genSid(r), f))
-	}
-	via := "api"
-	if r.Intn(3) == 0 {
-		via = "raw"
+		sid := genSid(r)
+		if via == "sparse" && i > 0 && r.Intn(2) == 0 {
+			sid = 0
+		}
+		parts = append(parts, seqToken(genNs(r), tag, sid, f))
 	}
 	return fmt.Sprintf("kind=seq id=%d q=%d via=%s s=%s", r.Intn(2), []int{1, 2, 64}[r.Intn(3)], via, strings.Join(parts, ";"))
 }
 
 func sampleInput(r *rand.Rand, ns int64) string {
 	var f []string
+	via := genVia(r)
 	for i := 0; i < 10; i++ {
-		f = append(f, fmt.Sprint(genField(r)))
+		v := genField(r)
+		if via == "sparse" && r.Intn(2) == 0 {
+			v = 0
+		}
+		f = append(f, fmt.Sprint(v))
 	}
-	via := "api"
-	if r.Intn(3) == 0 {
-		via = "raw"
+	sid := genSid(r)
+	if via == "sparse" && r.Intn(2) == 0 {
+		sid = 0
 	}
-	return fmt.Sprintf("ns=%d tag=%x sid=%d f=%s via=%s", ns, genTag(r), genSid(r), strings.Join(f, ","), via)
+	return fmt.Sprintf("ns=%d tag=%x sid=%d f=%s via=%s", ns, genTag(r), sid, strings.Join(f, ","), via)
 }
 
 func c06Gen(r *rand.Rand, tier string) []string {
 	nLine, nStr, nQueue, nJSON, nProc := 500, 120, 60, 40, 3
 	nSeq, nLate, nFile, nFail, nEngine := 60, 40, 6, 16, 24
+	nSinkFail := 12
 	if tier == "thorough" {
 		nLine, nStr, nQueue, nJSON, nProc = 40000, 8000, 4000, 3000, 36
 		nSeq, nLate, nFile, nFail, nEngine = 3000, 3000, 150, 600, 700
+		nSinkFail = 400
 	}
 	var out []string
 	// fixed: one column-identifying sample (all ten values distinct) through every setter, ids on and off
@@ -244,6 +267,10 @@ func c06Gen(r *rand.Rand, tier string) []string {
 		agg := []string{"phout", "jsonlines"}[r.Intn(2)]
 		out = append(out, fmt.Sprintf("kind=engine agg=%s pools=1 inst=%d ammo=%d per=%d q=64 slow=%d cancel=-1 seed=%d startrps=%d",
 			agg, []int{4, 8, 12}[r.Intn(3)], 1+r.Intn(3), 1+r.Intn(2), []int{2000, 4000}[r.Intn(2)], r.Intn(1<<20), []int{1000, 2500}[r.Intn(2)]))
+	}
+	for i := 0; i < nSinkFail; i++ {
+		out = append(out, fmt.Sprintf("kind=sinkfail agg=%s n=%d limit=%d", []string{"phout", "jsonlines"}[i%2],
+			[]int{0, 1, 2, 7, 40, 300}[r.Intn(6)], r.Intn(21)))
 	}
 	for i := 0; i < nJSON; i++ {
 		n := 1 + r.Intn(6)
@@ -376,6 +403,8 @@ func c06RunKind(kv map[string]string) string {
 		return runQueue(kv)
 	case "json":
 		return runJSON(kv)
+	case "sinkfail":
+		return runSinkFail(kv)
 	case "proc":
 		if raceEnabled {
 			return "inconclusive=race-build"
@@ -422,6 +451,15 @@ func c06Class(input, obs string) string {
 		return c
 	case "json":
 		return "json"
+	case "sinkfail":
+		c := "sinkfail:" + kv["agg"]
+		if strings.Contains(obs, "err=nil") && strings.Contains(obs, "failed=1") {
+			c += ":swallowed"
+		}
+		if strings.HasPrefix(obs, "inconclusive") {
+			c += ":inconclusive"
+		}
+		return c
 	case "proc":
 		if strings.HasPrefix(obs, "inconclusive") {
 			return "proc:inconclusive"
@@ -470,6 +508,6 @@ func main() {
 	}
 	drv.Main(&drv.Prop{
 		ID: "C06", Gen: c06Gen, Run: c06Run, Class: c06Class, Workers: workers, Timeout: 150 * time.Second,
-		Rule: "samples with boundary/random int64 fields, unicode/odd tags, ids on/off and boundary timestamps through the real phout aggregator (public setters or raw array) compared byte-exactly with the model; G∈{1,4,32,…} reporter goroutines × queue sizes {1,2,64,…} × flush intervals through the real phout and jsonlines aggregators with the cancel right after the last Report; random JSON values through jsonlines; sequences of different samples through one phout aggregator (whole file byte-exact); the same with the cancel in the middle of the reporting (reports completed before the cancel must be there), with the real file sink over stale content, with a sink that fails after N bytes (must still be closed); the real engine.Engine with 1-2 pools × instances × ammo over the real aggregators, judged the moment Engine.Run returns nil or, cancelled mid-run, after Engine.Wait; the pandora binary built from main.go (phout, or jsonlines over the file sink) stopped by SIGINT/SIGTERM at a PRNG-chosen instant; a case is non-trivial when it produced at least one line or a panic",
+		Rule: "samples with boundary/random int64 fields, unicode/odd tags, ids on/off and boundary timestamps through the real phout aggregator (public setters, raw array, or only the non-zero values set on a sample taken from the pool of released ones) compared byte-exactly with the model; G∈{1,4,32,…} reporter goroutines × queue sizes {1,2,64,…} × flush intervals through the real phout and jsonlines aggregators with the cancel right after the last Report; random JSON values through jsonlines; sequences of different samples through one phout aggregator (whole file byte-exact); the same with the cancel in the middle of the reporting (reports completed before the cancel must be there), with the real file sink over stale content, with a sink that fails after N bytes (must still be closed; when only the final flush writes, Run's error, the close and the accepted bytes are predicted by the failing-sink model); the real engine.Engine with 1-2 pools × instances × ammo over the real aggregators, judged the moment Engine.Run returns nil or, cancelled mid-run, after Engine.Wait; the pandora binary built from main.go (phout, or jsonlines over the file sink) stopped by SIGINT/SIGTERM at a PRNG-chosen instant; a case is non-trivial when it produced at least one line or a panic",
 	})
 }
